@@ -6,7 +6,9 @@
 //   I svdrank k rcond S                          -> O svdrank <FactorSVD::getRank()>
 //   I eig prec n tolk A lr li Vr Vi              -> O eig 1
 //   I inv prec n tolk A X                        -> O inv 1
-//   I qtzdiag prec t                             -> O qtzdiag <FactorQTZ(diag(1,t)).getRank()>
+//   I pinv prec n tolk A X                       -> O pinv 1
+//   I qtzdiag prec m n t                         -> O qtzdiag <FactorQTZ(diag(1,t,0..) m x n).getRank()>
+//   I svddiag prec m n t                         -> O svddiag <1 if FactorSVD::solve kept the singular value t>
 // P lines: the same residual predicates in long double (so that a failure has a concrete key), API-behaviour predicates.
 #include "SimTKmath.h"
 #include "hcommon.h"
@@ -17,6 +19,7 @@
 using namespace SimTK;
 typedef long double LD;
 typedef std::complex<double> cd;
+static int g_count[8] = {0, 0, 0, 0, 0, 0, 0, 0};   // records judged per family: lu, llt, ls, svd, eig, inv, pinv, rcond
 
 template <class T> struct Prec { static int id() { return 0; } static double eps() { return 2.220446049250313e-16; } static const char* name() { return "double"; } };
 template <> struct Prec<float> { static int id() { return 1; } static double eps() { return 1.1920928955078125e-07; } static const char* name() { return "float"; } };
@@ -70,6 +73,7 @@ template <class T> static Vector_<T> toVec(const std::vector<double>& v) { Vecto
 template <class T> static void luRecord(const std::string& what, const DMat& A, const std::vector<double>& b, const std::vector<double>& x, double tolk, const std::string& cls) {
     vh::Line in = vh::I("lu"); in.d(Prec<T>::id()).d(A.n).d(tolk); putMat(in, A); putVec(in, b); putVec(in, x); in.emit();
     std::puts("O lu 1");
+    ++g_count[what.compare(0, 3, "llt") == 0 ? 1 : 0];
     std::string key = what + "." + Prec<T>::name() + "." + cls;
     vh::D(key);
     vh::P("solve_residual", key + ".residual", luResidual(A, b, x), tolk * std::max(A.n, 1) * Prec<T>::eps());
@@ -77,7 +81,7 @@ template <class T> static void luRecord(const std::string& what, const DMat& A, 
 template <class T> static void invRecord(const std::string& what, const DMat& A, const Matrix_<T>& X, double tolk, const std::string& cls) {
     int n = A.n; DMat Xd(n, n); for (int i = 0; i < n; ++i) for (int j = 0; j < n; ++j) Xd(i, j) = (double)X(i, j);
     vh::Line in = vh::I("inv"); in.d(Prec<T>::id()).d(n).d(tolk); putMat(in, A); putMat(in, Xd); in.emit();
-    std::puts("O inv 1");
+    std::puts("O inv 1"); ++g_count[5];
     std::string key = what + ".inverse." + Prec<T>::name() + "." + cls; vh::D(key);
     double worst = 0;
     for (int i = 0; i < n; ++i) for (int j = 0; j < n; ++j) {
@@ -150,7 +154,7 @@ template <class T> static void lsCase(vh::Rng& g, int which, int m, int n, int c
     std::vector<double> xv = fromVec(x);
     bool exact = cls != 0;      // small-integer matrix: the driver also checks x against the exact null space and the exact rank
     vh::Line in = vh::I("ls"); in.d(Prec<T>::id()).d(m).d(n).d(256.0).d(exact ? 1 : 0).d(which == 0 ? rank : 999); putMat(in, A); putVec(in, b); putVec(in, xv); in.emit();
-    std::puts("O ls 1 1");       // (rank token 999: the reported rank of FactorSVD is judged in the svdrank record)
+    std::puts("O ls 1 1"); ++g_count[2];       // (rank token 999: the reported rank of FactorSVD is judged in the svdrank record)
     vh::D(key);
     vh::P("normal_equations", key + ".normal_eq", lsResidual(A, b, xv), 256.0 * std::max(m, n) * Prec<T>::eps());
     if (which == 0 && cls == 0) {
@@ -172,7 +176,7 @@ template <class T> static void svdCase(vh::Rng& g, int m, int n, int cls) {
     for (int i = 0; i < n; ++i) for (int j = 0; j < n; ++j) Vtd(i, j) = (double)Vt(i, j);     // rows of Vt = right singular vectors
     std::vector<double> Sv = fromVec(S);
     vh::Line in = vh::I("svd"); in.d(Prec<T>::id()).d(m).d(n).d(256.0); putMat(in, A); putMat(in, Ut); putVec(in, Sv); putMat(in, Vtd); in.emit();
-    std::puts("O svd 1");
+    std::puts("O svd 1"); ++g_count[3];
     std::string key = std::string("svd.") + Prec<T>::name() + (cls == 0 ? ".generic" : ".rankdef") + (m > n ? ".tall" : m < n ? ".wide" : ".square");
     vh::D(key);
     double tol = 256.0 * std::max(m, n) * Prec<T>::eps();
@@ -200,9 +204,8 @@ template <class T> static void svdCase(vh::Rng& g, int m, int n, int cls) {
 }
 
 // eigen-decomposition of a real general matrix (complex values/vectors returned); symmetric => values must be real
-template <class T> static void eigCase(vh::Rng& g, int n, int cls) {
-    DMat A = cls == 0 ? genGeneric(g, n, n) : genGeneric(g, n, n);
-    if (cls == 1) for (int i = 0; i < n; ++i) for (int j = 0; j < i; ++j) A(i, j) = A(j, i);
+template <class T> static void eigJudge(DMat A, int cls, const std::string& label) {
+    const int n = A.n;
     roundTo<T>(A);
     Eigen e(toSimTK<T>(A));
     Vector_<std::complex<T> > vals; Matrix_<std::complex<T> > vecs;
@@ -211,8 +214,17 @@ template <class T> static void eigCase(vh::Rng& g, int n, int cls) {
     for (int k = 0; k < n; ++k) { lr[k] = vals[k].real(); li[k] = vals[k].imag(); for (int i = 0; i < n; ++i) { Vr(k, i) = vecs(i, k).real(); Vi(k, i) = vecs(i, k).imag(); } }
     vh::Line in = vh::I("eig"); in.d(Prec<T>::id()).d(n).d(1024.0); putMat(in, A); putVec(in, lr); putVec(in, li); putMat(in, Vr); putMat(in, Vi); in.emit();
     std::puts("O eig 1");
-    std::string key = std::string("eig.") + Prec<T>::name() + (cls == 1 ? ".symmetricvalues" : ".general");
-    vh::D(key);
+    std::string key = std::string("eig.") + Prec<T>::name() + label;
+    vh::D(key); ++g_count[4];
+    // completeness of the spectrum: sum(lambda) = tr A, sum(lambda^2) = tr A^2 (a pair returned twice changes the power sums)
+    {
+        LD tr = 0, trA = 0, tr2 = 0, tr2A = 0, s1 = 0, s1i = 0, s2 = 0, s2i = 0, l1 = 0, l2 = 0;
+        for (int i = 0; i < n; ++i) { tr += A(i, i); trA += std::fabs(A(i, i)); for (int j = 0; j < n; ++j) { tr2 += (LD)A(i, j) * A(j, i); tr2A += std::fabs((LD)A(i, j) * A(j, i)); } }
+        for (int k = 0; k < n; ++k) { s1 += lr[k]; s1i += li[k]; s2 += (LD)lr[k] * lr[k] - (LD)li[k] * li[k]; s2i += 2 * (LD)lr[k] * li[k]; l1 += std::fabs(lr[k]) + std::fabs(li[k]); l2 += (LD)lr[k] * lr[k] + (LD)li[k] * li[k]; }
+        double v1 = (double)(std::max(std::fabs(s1 - tr), std::fabs(s1i)) / std::max<LD>(trA + l1, 1e-300L));
+        double v2 = (double)(std::max(std::fabs(s2 - tr2), std::fabs(s2i)) / std::max<LD>(tr2A + l2, 1e-300L));
+        vh::P("spectrum_complete", key + ".power_sums", std::max(v1, v2), 1024.0 * std::max(n, 1) * Prec<T>::eps());
+    }
     double worst = 0, degenerate = 0;
     for (int k = 0; k < n; ++k) {
         LD nv = 0; for (int i = 0; i < n; ++i) nv += (LD)Vr(k, i) * Vr(k, i) + (LD)Vi(k, i) * Vi(k, i);
@@ -235,7 +247,7 @@ template <class T> static void eigCase(vh::Rng& g, int n, int cls) {
     vh::P("eigenvalues_consistent", key + ".values_only", dv / sc, 1e4 * std::max(n, 1) * Prec<T>::eps());
     if (cls == 1) {
         double im = 0; for (int k = 0; k < n; ++k) im = std::max(im, std::fabs(li[k]));
-        vh::P("symmetric_eigenvalues_real", key + ".real", im, 0);
+        vh::P("symmetric_eigenvalues_real", key + ".real", im, 0);      // geev on an exactly symmetric matrix: real Schur form has no 2x2 blocks
         // "real and ordered for symmetric input": the symmetric LAPACK path (syev, ascending) exists in Eigen.cpp but cannot be
         // reached through the public API (a Symmetric-committed Matrix cannot be filled; the real-valued getters are not
         // instantiated), so symmetric input goes through geev, which does not order.  Specific key.
@@ -244,6 +256,23 @@ template <class T> static void eigCase(vh::Rng& g, int n, int cls) {
     }
 }
 
+template <class T> static void eigCase(vh::Rng& g, int n, int cls) {
+    DMat A = genGeneric(g, n, n);
+    if (cls == 1) for (int i = 0; i < n; ++i) for (int j = 0; j < i; ++j) A(i, j) = A(j, i);
+    eigJudge<T>(A, cls, cls == 1 ? ".symmetricvalues" : ".general");
+}
+template <class T> static void eigSpecialCase(vh::Rng& g, int n, int cls) {
+    DMat A(n, n);
+    if (cls == 0) {            // repeated eigenvalues: c I + u u^T (symmetric; n-1 equal eigenvalues)
+        std::vector<double> u = genVec(g, n, true); double c = g.smallInt(1, 4);
+        for (int i = 0; i < n; ++i) for (int j = 0; j < n; ++j) A(i, j) = u[i] * u[j] + (i == j ? c : 0);
+        eigJudge<T>(A, 1, ".repeated");
+    } else {                   // defective: upper bidiagonal Jordan-like blocks (integer entries)
+        double lam = g.smallInt(-3, 3);
+        for (int i = 0; i < n; ++i) { A(i, i) = (i % 3 == 2) ? lam + 1 : lam; if (i + 1 < n && i % 3 != 2) A(i, i + 1) = 1; }
+        eigJudge<T>(A, 0, ".defective");
+    }
+}
 // complex element type through the real embedding  [Re -Im; Im Re]
 static void complexLuCase(vh::Rng& g, int n) {
     Matrix_<cd> C(n, n); Vector_<cd> b(n), x;
@@ -267,7 +296,7 @@ static void apiCase(vh::Rng& g, int which) {
         std::string res = "ok"; double resid = 0;
         try { FactorQTZ q(C); q.solve(b, x); for (int i = 0; i < n; ++i) { cd s = -b[i]; for (int j = 0; j < n; ++j) s += C(i, j) * x[j]; resid = std::max(resid, std::abs(s)); } }
         catch (const std::exception&) { res = "EXC"; }
-        vh::I("qtzdiag").d(0).d(1.0).emit(); std::puts("O qtzdiag 2");       // carrier record (answered trivially by the model)
+        vh::I("qtzdiag").d(0).d(2).d(2).d(0.5).emit(); std::puts("O qtzdiag 2");       // carrier record (answered trivially by the model)
         vh::D("api.qtz.complex." + res);
         vh::P("complex_qtz_solves", "qtz.complex.solve.throws", res == "ok" ? resid : 1.0, 1e-10);
     } else if (which == 1) {   // complex Eigen: run in a child process (the call crashes)
@@ -279,14 +308,14 @@ static void apiCase(vh::Rng& g, int which) {
                   double r = 0; for (int k = 0; k < 2; ++k) for (int i = 0; i < 2; ++i) { cd s = -v[k] * m(i, k); for (int j = 0; j < 2; ++j) s += C(i, j) * m(j, k); r = std::max(r, std::abs(s)); }
                   _exit(r < 1e-10 ? 0 : 3); } catch (...) { _exit(4); }
         } else if (pid > 0) { waitpid(pid, &status, 0); crashed = WIFSIGNALED(status); bad = !crashed && WEXITSTATUS(status) != 0; }
-        vh::I("qtzdiag").d(0).d(1.0).emit(); std::puts("O qtzdiag 2");
+        vh::I("qtzdiag").d(0).d(2).d(2).d(0.5).emit(); std::puts("O qtzdiag 2");
         vh::D(std::string("api.eigen.complex.") + (crashed ? "crash" : bad ? "wrong" : "ok"));
         vh::P("complex_eigen_works", "eigen.complex.crash", (crashed || bad) ? 1 : 0, 0);
     } else if (which == 2) {   // Eigen of a 0x0 matrix
         std::string res = "ok"; std::string what;
         try { Matrix Z(0, 0); Eigen e(Z); Vector_<cd> v; Matrix_<cd> m; e.getAllEigenValuesAndVectors(v, m); if (v.size() != 0) res = "wrong"; }
         catch (const std::exception& ex) { res = "EXC"; what = ex.what(); }
-        vh::I("qtzdiag").d(0).d(1.0).emit(); std::puts("O qtzdiag 2");
+        vh::I("qtzdiag").d(0).d(2).d(2).d(0.5).emit(); std::puts("O qtzdiag 2");
         vh::D("api.eigen.size0." + res);
         vh::P("size0_eigen", "eigen.size0.internal_error", (res == "ok" || what.find("internal error") == std::string::npos) ? 0 : 1, 0);
     } else if (which == 3) {   // zero-size factorizations: LU/LLT/QTZ reject with an API argument error; SVD returns empty results
@@ -295,20 +324,142 @@ static void apiCase(vh::Rng& g, int which) {
         try { Matrix Z(0, 0); FactorLLT f(Z); } catch (const std::exception& ex) { if (std::string(ex.what()).find("zero dimension") != std::string::npos) ++okc; }
         try { Matrix Z(0, 3); FactorQTZ f(Z); } catch (const std::exception& ex) { if (std::string(ex.what()).find("zero dimension") != std::string::npos) ++okc; }
         try { Matrix Z(0, 0); FactorSVD f(Z); Vector s; f.getSingularValues(s); Vector b(0), x; f.solve(b, x); if (s.size() == 0 && x.size() == 0) ++okc; } catch (...) {}
-        vh::I("qtzdiag").d(0).d(1.0).emit(); std::puts("O qtzdiag 2");
+        vh::I("qtzdiag").d(0).d(2).d(2).d(0.5).emit(); std::puts("O qtzdiag 2");
         vh::D("api.size0");
         vh::P("size0_handled", "api.size0.not_rejected_cleanly", 4 - okc, 0);
-    } else {                   // default rcond of FactorQTZ observed through the rank of diag(1,t)
+    } else {                   // default rcond = max(m,n)*eps^(7/8) observed through rank (QTZ) / truncation (SVD) of diag(1,t,0..)
         bool fl = g.coin();
-        double thr = 2 * (fl ? (double)NTraits<float>::getSignificant() : (double)NTraits<double>::getSignificant());
+        int m = 2 + g.below(6), n = 2 + g.below(6);
+        double thr = std::max(m, n) * (fl ? (double)NTraits<float>::getSignificant() : (double)NTraits<double>::getSignificant());
         double t = thr * (g.coin() ? 1.5 : 1 / 1.5);
-        int rank;
-        if (fl) { Matrix_<float> M(2, 2); M = 0; M(0, 0) = 1; M(1, 1) = (float)t; t = (double)(float)t; FactorQTZ q(M); rank = q.getRank(); }
-        else { Matrix M(2, 2); M = 0; M(0, 0) = 1; M(1, 1) = t; FactorQTZ q(M); rank = q.getRank(); }
-        vh::I("qtzdiag").d(fl ? 1 : 0).d(t).emit(); std::printf("O qtzdiag %d\n", rank);
-        vh::D(std::string("qtzdiag.") + (fl ? "float" : "double"));
+        if (fl) t = (double)(float)t;
+        int rank; double x2;
+        if (fl) { Matrix_<float> M(m, n); M = 0; M(0, 0) = 1; M(1, 1) = (float)t; FactorQTZ q(M); rank = q.getRank();
+                  Vector_<float> b(m, 0.f), x; b[0] = 1; b[1] = 1; FactorSVD sv(M); sv.solve(b, x); x2 = x[1]; }
+        else { Matrix M(m, n); M = 0; M(0, 0) = 1; M(1, 1) = t; FactorQTZ q(M); rank = q.getRank();
+               Vector b(m, 0.0), x; b[0] = 1; b[1] = 1; FactorSVD sv(M); sv.solve(b, x); x2 = x[1]; }
+        vh::I("qtzdiag").d(fl ? 1 : 0).d(m).d(n).d(t).emit(); std::printf("O qtzdiag %d\n", rank);
+        vh::D(std::string("qtzdiag.") + (fl ? "float" : "double") + (m == n ? ".square" : m > n ? ".tall" : ".wide"));
+        bool kept = std::fabs(x2 * t - 1) < 1e-3, dropped = x2 == 0;
+        vh::I("svddiag").d(fl ? 1 : 0).d(m).d(n).d(t).emit(); std::printf("O svddiag %d\n", kept ? 1 : 0);
+        vh::D(std::string("svddiag.") + (fl ? "float" : "double"));
+        vh::P("svd_truncation_is_clean", "svd.defaultrcond.x2_neither_kept_nor_dropped", (kept || dropped) ? 0 : 1, 0);
     }
 }
+
+// ---------------------------------------------------------------- round-2 additions
+
+// condition estimate of FactorQTZ against the singular values FactorSVD returns for the same matrix, and the QTZ/SVD inverses
+template <class T> static void condAndInverseCase(vh::Rng& g, int n, int cls) {
+    // cls 0: generic square; 1: graded singular values (cond 1e3..1e6, double 1e3..1e9); 2: exactly rank-deficient integers (pseudo-inverse)
+    DMat A;
+    if (cls == 0) A = genGeneric(g, n, n);
+    else if (cls == 1) { A = genGeneric(g, n, n); double cnd = std::pow(10.0, g.range(3, sizeof(T) == 4 ? 4.5 : 9)); for (int i = 0; i < n; ++i) for (int j = 0; j < n; ++j) A(i, j) *= std::pow(cnd, -(double)j / std::max(1, n - 1)); }
+    else A = genRankDeficientInts(g, n, n, std::max(1, n - 1 - g.below(2)));
+    roundTo<T>(A);
+    Matrix_<T> M = toSimTK<T>(A);
+    FactorQTZ q(M); FactorSVD sv(M);
+    Vector_<T> S; sv.getSingularValues(S);
+    const int rank = q.getRank();
+    std::string key = std::string(Prec<T>::name()) + (cls == 0 ? ".generic" : cls == 1 ? ".graded" : ".rankdef");
+    if (n >= 2 && rank >= 1 && rank <= n && (double)S[0] > 0) {
+        double truth = (double)S[rank - 1] / (double)S[0], est = q.getRCondEstimate();
+        // incremental condition estimation is a heuristic that is accurate to a modest factor; a mis-scaled or transposed
+        // estimate is off by orders of magnitude
+        double ratio = (est > 0 && truth > 0) ? std::max(est / truth, truth / est) : INFINITY;
+        vh::I("qtzdiag").d(0).d(2).d(2).d(0.5).emit(); std::puts("O qtzdiag 2");
+        vh::D("rcond." + key); ++g_count[7];
+        vh::P("rcond_estimate_consistent", "qtz.rcond." + key + ".vs_singular_values", ratio, 10.0);
+    }
+    // inverses reported by FactorQTZ and FactorSVD
+    Matrix_<T> Xq, Xs; q.inverse(Xq); sv.inverse(Xs);
+    if (cls != 2) { invRecord<T>("qtz", A, Xq, cls == 1 ? 1e6 : 1024, cls == 1 ? "graded" : "generic"); invRecord<T>("svd", A, Xs, cls == 1 ? 1e6 : 1024, cls == 1 ? "graded" : "generic"); g_count[5] += 2; }
+    else {
+        for (int w = 0; w < 2; ++w) {
+            const Matrix_<T>& X = w == 0 ? Xq : Xs;
+            DMat Xd(n, n); for (int i = 0; i < n; ++i) for (int j = 0; j < n; ++j) Xd(i, j) = (double)X(i, j);
+            vh::Line in = vh::I("pinv"); in.d(Prec<T>::id()).d(n).d(4096.0); putMat(in, A); putMat(in, Xd); in.emit();
+            std::puts("O pinv 1");
+            vh::D(std::string(w == 0 ? "qtz" : "svd") + ".pinv." + Prec<T>::name()); ++g_count[6];
+            // A X A = A in long double
+            double worst = 0, amax = 0, xmax = 0;
+            for (double v : A.a) amax = std::max(amax, std::fabs(v)); for (double v : Xd.a) xmax = std::max(xmax, std::fabs(v));
+            for (int i = 0; i < n; ++i) for (int j = 0; j < n; ++j) { LD sacc = -A(i, j); for (int k = 0; k < n; ++k) for (int l = 0; l < n; ++l) sacc += (LD)A(i, k) * Xd(k, l) * A(l, j); worst = std::max(worst, (double)std::fabs(sacc)); }
+            vh::P("pseudo_inverse_AXA", std::string(w == 0 ? "qtz" : "svd") + ".pinv." + Prec<T>::name() + ".AXA", worst / (amax * (1 + n * n * xmax * amax)), 4096.0 * n * Prec<T>::eps());
+        }
+    }
+}
+
+// element types negator<T>: the matrix handed to the factorization is the negated *view* of the stored data
+template <class T> static void negatorCase(vh::Rng& g, int n) {
+    DMat A = genGeneric(g, n, n); roundTo<T>(A);
+    std::vector<double> b = genVec(g, n, false); roundTo<T>(b);
+    Matrix_<T> M = toSimTK<T>(A);
+    const Matrix_<negator<T> >& Mn = M.negate();           // values are -A
+    DMat An = A; for (auto& v : An.a) v = -v;
+    Vector_<T> x;
+    { FactorLU f(Mn); if (!f.isSingular()) { f.solve(toVec<T>(b), x); luRecord<T>("lu.negator", An, b, fromVec(x), 64, "generic"); ++g_count[0]; } }
+    { FactorQTZ f(Mn); f.solve(toVec<T>(b), x); luRecord<T>("qtz.negator", An, b, fromVec(x), 1024, "generic"); }
+    { FactorSVD f(Mn); f.solve(toVec<T>(b), x); luRecord<T>("svd.negator", An, b, fromVec(x), 1024, "generic"); }
+}
+
+// user-specified rcond and numerically (not exactly) rank-deficient matrices: the reported rank follows the threshold
+template <class T> static void numericalRankCase(vh::Rng& g, int m, int n) {
+    int k = std::min(m, n); if (k < 2) return;
+    int r = 1 + g.below(k - 1);
+    // A = sum_{i<r} u_i v_i^T (O(1)) + noise*G: singular values r large ones and k-r of size ~noise
+    const double noise = sizeof(T) == 4 ? 1e-5 : 1e-11, rc = sizeof(T) == 4 ? 1e-3 : 1e-7;
+    DMat A = mul(genGeneric(g, m, r), genGeneric(g, r, n)); DMat G = genGeneric(g, m, n);
+    for (size_t i = 0; i < A.a.size(); ++i) A.a[i] += noise * G.a[i];
+    roundTo<T>(A);
+    Matrix_<T> M = toSimTK<T>(A);
+    std::vector<double> b = genVec(g, m, false); roundTo<T>(b);
+    typename CNT<T>::TReal rcT = (typename CNT<T>::TReal)rc;
+    FactorQTZ q(M, rcT); FactorSVD sv(M, rcT);
+    Vector_<T> S; sv.getSingularValues(S);
+    int expect = 0; for (int i = 0; i < k; ++i) if ((double)S[i] > rc * (double)S[0]) ++expect;
+    vh::I("qtzdiag").d(0).d(2).d(2).d(0.5).emit(); std::puts("O qtzdiag 2");
+    vh::D(std::string("numrank.") + Prec<T>::name());
+    vh::P("user_rcond_rank", std::string("qtz.user_rcond.") + Prec<T>::name() + ".rank", std::abs(q.getRank() - r) + std::abs(expect - r), 0);
+    // both truncated solves give (nearly) the same minimum-norm least-squares solution of the rank-r part
+    Vector_<T> xq, xs; q.solve(toVec<T>(b), xq); sv.solve(toVec<T>(b), xs);
+    double d = 0, sc = 1e-300; for (int i = 0; i < n; ++i) { d = std::max(d, std::fabs((double)xq[i] - (double)xs[i])); sc = std::max(sc, std::fabs((double)xs[i])); }
+    vh::P("truncated_solutions_agree", std::string("qtz_vs_svd.user_rcond.") + Prec<T>::name() + ".solution", d / sc, sizeof(T) == 4 ? 2e-2 : 1e-3);
+}
+
+// matrix right-hand sides and refactorisation for LLT / QTZ / SVD; scaled systems (|A| near under/overflow) for LU / QTZ
+template <class T> static void rhsRefactorScaleCase(vh::Rng& g, int n) {
+    DMat A = genSPD(g, n); roundTo<T>(A); for (int i = 0; i < n; ++i) for (int j = 0; j < i; ++j) A(i, j) = A(j, i);
+    int nrhs = 2 + g.below(2); DMat B = genGeneric(g, n, nrhs); roundTo<T>(B);
+    auto cols = [&](const std::string& what, const DMat& AA, const Matrix_<T>& X, double tolk) {
+        for (int c = 0; c < nrhs; ++c) { std::vector<double> bc(n), xc(n); for (int i = 0; i < n; ++i) { bc[i] = B(i, c); xc[i] = (double)X(i, c); } luRecord<T>(what, AA, bc, xc, tolk, "matrixrhs"); }
+    };
+    Matrix_<T> X;
+    FactorLLT llt(toSimTK<T>(A)); llt.solve(toSimTK<T>(B), X); cols("llt", A, X, 64);
+    FactorQTZ q(toSimTK<T>(A)); q.solve(toSimTK<T>(B), X); cols("qtz", A, X, 1024);
+    FactorSVD sv(toSimTK<T>(A)); sv.solve(toSimTK<T>(B), X); cols("svd", A, X, 1024);
+    DMat A2 = genSPD(g, n); roundTo<T>(A2); for (int i = 0; i < n; ++i) for (int j = 0; j < i; ++j) A2(i, j) = A2(j, i);
+    llt.factor(toSimTK<T>(A2)); llt.solve(toSimTK<T>(B), X); cols("llt.refactor", A2, X, 64);
+    q.factor(toSimTK<T>(A2)); q.solve(toSimTK<T>(B), X); cols("qtz.refactor", A2, X, 1024);
+    sv.factor(toSimTK<T>(A2)); sv.solve(toSimTK<T>(B), X); cols("svd.refactor", A2, X, 1024);
+    if (sizeof(T) == 8) {
+        // scaleLinSys / scaleRHS branches of FactorQTZ (|A|max outside [smlnum, bignum] ~ [1e-292, 1e292]); the contract is exact
+        for (int w = 0; w < 2; ++w) {
+            const double f = w == 0 ? 1e-300 : 1e295;
+            DMat As = genGeneric(g, n, n); for (auto& v : As.a) v *= f;
+            std::vector<double> b = genVec(g, n, false); if (w == 0) for (auto& v : b) v *= 1e-300;
+            Vector_<T> x; FactorQTZ qs(toSimTK<T>(As)); qs.solve(toVec<T>(b), x);
+            vh::Line in = vh::I("lu"); in.d(0).d(n).d(4096.0); putMat(in, As); putVec(in, b); putVec(in, fromVec(x)); in.emit();
+            std::puts("O lu 1");
+            vh::D(std::string("qtz.scaled.") + (w == 0 ? "tiny" : "huge"));
+            bool fin = true; for (int i = 0; i < n; ++i) if (!std::isfinite((double)x[i])) fin = false;
+            vh::P("scaled_system_solved", std::string("qtz.scaled.") + (w == 0 ? "tiny" : "huge") + ".finite", fin ? 0 : 1, 0);
+        }
+    }
+}
+
+// eigenvalue special structure: repeated (symmetric I + u u^T has n-1 equal eigenvalues) and defective (Jordan-like) matrices
+template <class T> static void eigSpecialCase(vh::Rng& g, int n, int cls);
 
 template <class T> static void oneCase(vh::Rng& g, int maxN) {
     int stream = g.below(12);
@@ -323,6 +474,17 @@ template <class T> static void oneCase(vh::Rng& g, int maxN) {
     else if (stream <= 10) eigCase<T>(g, n, g.below(2));
     else complexLuCase(g, 1 + g.below(std::min(maxN, 6)));
 }
+template <class T> static void round2Case(vh::Rng& g, int maxN, int which) {
+    int n = 2 + g.below(maxN - 1);
+    switch (which % 6) {
+    case 0: condAndInverseCase<T>(g, n, g.below(3)); break;
+    case 1: negatorCase<T>(g, n); break;
+    case 2: numericalRankCase<T>(g, 2 + g.below(maxN - 1), 2 + g.below(maxN - 1)); break;
+    case 3: rhsRefactorScaleCase<T>(g, n); break;
+    case 4: eigSpecialCase<T>(g, std::max(n, 3), g.below(2)); break;
+    default: if (sizeof(T) == 8 || true) { int big = 13 + g.below(28); if (g.coin()) luCase<T>(g, big, 0); else lsCase<T>(g, g.below(2), big, 13 + g.below(28), 0); }   // sizes 13..40 also in the quick tier
+    }
+}
 
 static void replay() { /* contracts are pure functions of the record: the driver re-evaluates them; nothing to re-run */
     static char buf[1 << 22];
@@ -331,7 +493,7 @@ static void replay() { /* contracts are pure functions of the record: the driver
         std::string line(buf); while (!line.empty() && (line.back() == '\n' || line.back() == '\r')) line.pop_back();
         std::puts(line.c_str());
         std::istringstream is(line); std::string k, fn; is >> k >> fn;
-        if (fn == "svdrank") std::puts("O svdrank 0"); else if (fn == "ls") std::puts("O ls 1 1"); else if (fn == "qtzdiag") std::puts("O qtzdiag 2");
+        if (fn == "svdrank") std::puts("O svdrank 0"); else if (fn == "ls") std::puts("O ls 1 1"); else if (fn == "qtzdiag") std::puts("O qtzdiag 2"); else if (fn == "svddiag") std::puts("O svddiag 1");
         else std::printf("O %s 1\n", fn.c_str());
     }
 }
@@ -344,9 +506,24 @@ int main(int argc, char** argv) {
     vh::Rng g(args.seed * 7919 + 24);
     int maxN = args.n > 1500 ? 40 : 12;
     for (int w = 0; w < 5; ++w) apiCase(g, w);
+    for (int w = 0; w < 12; ++w) { if (w % 2) round2Case<float>(g, maxN, w / 2); else round2Case<double>(g, maxN, w / 2); }   // guaranteed shares
+    // exactly singular matrix: isSingular() must say so; a generic one must not
+    { Matrix S2(2, 2); S2(0, 0) = 1; S2(0, 1) = 2; S2(1, 0) = 2; S2(1, 1) = 4; FactorLU f(S2); Matrix G2(2, 2); G2(0, 0) = 4; G2(0, 1) = 1; G2(1, 0) = 1; G2(1, 1) = 3; FactorLU f2(G2);
+      vh::I("qtzdiag").d(0).d(2).d(2).d(0.5).emit(); std::puts("O qtzdiag 2"); vh::D("lu.isSingular");
+      vh::P("isSingular_truthful", "lu.isSingular.wrong", (f.isSingular() && f.getSingularIndex() == 2 && !f2.isSingular()) ? 0 : 1, 0); }
     for (long k = 0; k < args.n; ++k) {
-        if (g.below(40) == 0) { apiCase(g, 4); continue; }
+        int r = g.below(40);
+        if (r == 0) { apiCase(g, 4); continue; }
+        if (r <= 6) { if (g.below(3) == 0) round2Case<float>(g, maxN, g.below(6)); else round2Case<double>(g, maxN, g.below(6)); continue; }
         if (g.below(3) == 0) oneCase<float>(g, maxN); else oneCase<double>(g, maxN);
+    }
+    // floor: minimum numbers of records that reached the result predicates per family (an always-throwing regression must not
+    // pass vacuously)
+    {
+        static const char* fam[8] = {"lu", "llt", "ls", "svd", "eig", "inv", "pinv", "rcond"};
+        const int need[8] = {20, 4, 10, 6, 6, 6, 2, 2};
+        vh::I("qtzdiag").d(0).d(2).d(2).d(0.5).emit(); std::puts("O qtzdiag 2"); vh::D("floor");
+        for (int i = 0; i < 8; ++i) vh::P("coverage_floor", std::string("c24.floor.") + fam[i], std::max(0, need[i] - g_count[i]), 0);
     }
     return 0;
 }
